@@ -8,6 +8,7 @@ import (
 	"go/ast"
 	"go/token"
 	"go/types"
+	"sort"
 	"strings"
 
 	"golang.org/x/tools/go/ssa"
@@ -302,7 +303,9 @@ func (e *Exec) applyContract(ct *Contract, fn *ssa.Function, args []Val, reach T
 		if label == "" {
 			label = fmt.Sprintf("%d", i)
 		}
-		e.oblige("requires@"+fullKey(fn), label, reach, g, pos)
+		if !e.assumeCalls {
+			e.oblige("requires@"+fullKey(fn), label, reach, g, pos)
+		}
 		c.assume(c.implies(reach, g), "")
 	}
 	// havoc the frame
@@ -722,8 +725,32 @@ func (e *Exec) afterCallAnchors(fr *frame, fn *ssa.Function, x *ssa.Call, reach 
 		return
 	}
 	key := "call " + funcKey(fn)
+	// "call X #k": the k-th call of X in source order; "#last": the last one
+	ordKey, lastKey := "", ""
+	{
+		var poss []token.Pos
+		for _, b := range fr.fi.Fn.Blocks {
+			for _, in := range b.Instrs {
+				if cl, ok := in.(*ssa.Call); ok {
+					if sc := cl.Call.StaticCallee(); sc != nil && funcKey(sc) == funcKey(fn) {
+						poss = append(poss, cl.Pos())
+					}
+				}
+			}
+		}
+		sort.Slice(poss, func(i, j int) bool { return poss[i] < poss[j] })
+		for i, p := range poss {
+			if p == x.Pos() {
+				ordKey = fmt.Sprintf("%s #%d", key, i+1)
+				if i == len(poss)-1 {
+					lastKey = key + " #last"
+				}
+			}
+		}
+	}
+	match := func(anchor string) bool { return anchor == key || (ordKey != "" && anchor == ordKey) || (lastKey != "" && anchor == lastKey) }
 	for _, gu := range fr.spec.GhostUpd {
-		if gu.Anchor == key {
+		if match(gu.Anchor) {
 			env := fr.specEnv(st)
 			env.result = res
 			v := e.evalSpec(gu.E, env)
@@ -737,7 +764,7 @@ func (e *Exec) afterCallAnchors(fr *frame, fn *ssa.Function, x *ssa.Call, reach 
 		}
 	}
 	for _, ct := range fr.spec.Cuts {
-		if ct.Anchor == key {
+		if match(ct.Anchor) {
 			// cut point: prove the formula, forget everything about the locations the unit may
 			// assign, and continue from the formula alone
 			env := fr.specEnv(st)
@@ -757,7 +784,7 @@ func (e *Exec) afterCallAnchors(fr *frame, fn *ssa.Function, x *ssa.Call, reach 
 		}
 	}
 	for _, as := range fr.spec.Asserts {
-		if as.Anchor == key {
+		if match(as.Anchor) {
 			env := fr.specEnv(st)
 			env.result = res
 			g := e.evalSpecBool(as.E, env, st, nil)
@@ -766,6 +793,11 @@ func (e *Exec) afterCallAnchors(fr *frame, fn *ssa.Function, x *ssa.Call, reach 
 				label = key
 			}
 			e.oblige("assert", label, reach, g, x.Pos())
+			// cover: the assertion site must be reachable (an assertion behind contradictory
+			// assumptions proves nothing)
+			if !e.c.dry && e.c.quiet == 0 {
+				e.c.oblige(&Oblig{Name: e.unit + "#vacuity:assert-reachable:" + label, Kind: "vacuity", Fn: e.unit, Goal: e.c.not(reach), Props: e.props, Expect: "sat"})
+			}
 			e.c.assume(e.c.implies(reach, g), "")
 		}
 	}
